@@ -262,3 +262,25 @@ PROPS['C15'] = dict(
         [dict(target='comutex', family='cosharedmutex', mode='random', cases=250000, workers=14, timeout=3000),
          dict(target='comutex', family='cosharedmutex', mode='dfs', bound=2, workers=10, timeout=3000, args=['--dfs-cap', '150000'])]),
 )
+
+PROPS['C13'] = dict(
+    level='exploration', assumptions=FIBER_ASSUME + ['where a coroutine runs after a plain (inline) co_await / Await is not constrained: it inherits the awaited core\'s executor like a continuation'],
+    technique='rapidcheck-generated coroutine await scripts x producers x explorer schedules, built with and without '
+              'symmetric transfer, + bounded-exhaustive schedules of single-await programs; resume-once / value / '
+              'executor-identity / frame-lifetime oracle',
+    level_text='1..3 coroutines (Future, Task, SharedFuture) interpret generated scripts of awaits over every awaiter form '
+               '(co_await Future/SharedFuture/Task, Await/AwaitSticky/AwaitOn of one or two, unique/shared/mixed, variadic '
+               'and iterator, On, kYield, CurrentExecutor, stopped executors, escaping throw) while a producer fiber '
+               'fulfils what is not pre-ready; schedules from the explorer; two builds (symmetric transfer on/off in '
+               'thorough). Each co_await resumes exactly once and only after its Sets began with the value or rethrown '
+               'failure; Await leaves futures valid+ready; after On/AwaitOn/Sticky/kYield the worker fiber identity '
+               'matches the named/own executor; a stopped executor completes the coroutine with StopError, nothing '
+               'after the await runs, the frame local is destroyed once; co_return/escaping exception become the Result.',
+    level_note='Executor identity = id of the single worker fiber of a one-worker pool. Trusts scheduler substrate.',
+    jobs=q(
+        [dict(target='coro', family='coro', mode='random', cases=15000, workers=12, timeout=600),
+         dict(target='coro', family='coro', mode='dfs', bound=1, workers=4, timeout=600, args=['--dfs-cap', '4000'])],
+        [dict(target='coro', family='coro', mode='random', cases=200000, workers=10, timeout=3000),
+         dict(target='coro-nost', family='coro', mode='random', cases=200000, workers=6, timeout=3000),
+         dict(target='coro', family='coro', mode='dfs', bound=2, workers=10, timeout=3000, args=['--dfs-cap', '100000'])]),
+)
